@@ -86,6 +86,13 @@ func runJanitor(a *args, res *result) {
 		}
 	}
 	res.count("constructor_interval_cells", int64(len(cases)))
+	// ---- a write that lands while a janitor pass is in flight
+	for fi, fl := range cacheFlavors {
+		if !a.mine(int64(fi)) {
+			continue
+		}
+		janitorPair(res, fl)
+	}
 	// ---- lifetime rounds
 	for i := int64(0); i < a.n2; i++ {
 		if !a.mine(i) {
@@ -396,4 +403,131 @@ func runLifetime(res *result, r rng, idx int64) {
 		runtime.GC()
 		settle()
 	}
+}
+
+// janitorPair: the janitor's pass is suspended at each of its shim steps, a new
+// entry with a short TTL is stored meanwhile, the pass is resumed, and then time
+// goes on: the new entry must be cleaned up by the janitor within the next two
+// intervals and reported once, with no user call - whatever the pass that was in
+// flight concluded about "is there anything left to clean".
+func janitorPair(res *result, flavor string) {
+	interval := time.Millisecond
+	setup := func() (cacheAPI, *vshim.FakeTicker, *ledger) {
+		vshim.SetVNow(epoch)
+		vshim.ResetTickers()
+		led := &ledger{}
+		c := newCache(cacheSpec{Flavor: flavor, Ctor: "New", OptMask: 1 | 2 | 4, DefExp: time.Hour, Interval: interval, NKeys: 64, Callback: led.cb(1)})
+		tks := waitTicker(1)
+		if len(tks) != 1 {
+			return c, nil, led
+		}
+		for k := 10; k < 14; k++ {
+			c.SetForever(k, nextVal(k))
+		}
+		c.Set(1, nextVal(1), 5) // something for the pass to remove
+		return c, tks[0], led
+	}
+	pollToken := func() *vshim.ParkToken {
+		for i := 0; i < 1<<21; i++ {
+			select {
+			case t := <-vshim.ParkedTokens():
+				return t
+			default:
+				runtime.Gosched()
+			}
+		}
+		return nil
+	}
+	// calibration: how many shim steps does one pass take
+	c0, tk0, _ := setup()
+	if tk0 == nil {
+		return
+	}
+	vshim.SetTokenMode(true)
+	vshim.ResetGStep()
+	vshim.SetMode(vshim.MGlobal | vshim.MCount | vshim.MPoll)
+	vshim.SetVNow(epoch + int64(interval))
+	okc := tk0.FireWait(maxYield) && tk0.FireWait(maxYield) && tk0.FireWait(maxYield)
+	L := vshim.GStep()
+	vshim.SetMode(0)
+	runtime.KeepAlive(c0)
+	if !okc || L <= 0 {
+		return
+	}
+	res.max("janitor_pass_steps", L)
+	noPark := 0
+	for N := int64(1); N <= L && noPark < 3; N++ {
+		c, tk, led := setup()
+		if tk == nil {
+			return
+		}
+		logCase("janitor pair %s N=%d of %d", flavor, N, L)
+		res.Evaluations++
+		vshim.ResetGStep()
+		vshim.SetMode(vshim.MGlobal | vshim.MCount | vshim.MPoll)
+		now := epoch + int64(interval)
+		vshim.SetVNow(now)
+		vshim.ArmPark(N)
+		if !tk.FireWait(maxYield) {
+			vshim.ArmPark(0)
+			vshim.SetMode(0)
+			continue
+		}
+		tok := pollToken()
+		vshim.ArmPark(0)
+		v9 := nextVal(9)
+		// expires 3 ns from now; nobody will touch it again. The pass may be parked while it
+		// holds the bucket this Set needs: then the pass is resumed first.
+		setDone := make(chan struct{})
+		vshim.ArmSpinNotify()
+		go func() { c.Set(9, v9, 3); close(setDone) }()
+		select {
+		case <-setDone:
+		case <-vshim.SpinNotified():
+		}
+		vshim.DisarmSpinNotify()
+		if tok == nil {
+			noPark++
+		} else {
+			noPark = 0
+		}
+		if tok != nil {
+			tok.Resume()
+			res.count("janitor_parked_scenarios", 1)
+			fp := newFP()
+			fp.addStr("janitor-pair" + flavor)
+			fp.add(uint64(N))
+			res.nontrivial(fp.sum())
+		}
+		<-setDone
+		// time goes on: three more intervals, each pass flushed
+		ok := true
+		for t := 0; t < 3 && ok; t++ {
+			now += int64(interval)
+			vshim.SetVNow(now)
+			ok = tk.FireWait(maxYield) && tk.FireWait(maxYield) && tk.FireWait(maxYield)
+		}
+		vshim.SetMode(0)
+		bad := func(sig, msg string) {
+			res.violate(violation{Class: "janitor", Sig: sig, Msg: fmt.Sprintf("%s, janitor pass suspended at its step %d of %d while Set(k9, ttl 3ns) ran: %s", flavor, N, L, msg), Case: map[string]any{"flavor": flavor, "N": N}})
+		}
+		if !ok {
+			bad("janitor does not consume ticks", "a tick was not accepted")
+			return
+		}
+		led.mu.Lock()
+		n9 := 0
+		for _, e := range led.entries {
+			if e.V == any(v9) {
+				n9++
+			}
+		}
+		led.mu.Unlock()
+		if cnt := c.Count(); cnt != 4 || n9 != 1 {
+			bad("an entry stored while a janitor pass was in flight is never cleaned up by the janitor", fmt.Sprintf("three intervals later Count()=%d (4 permanent entries), evicted callback for it fired %d times", cnt, n9))
+			return
+		}
+		runtime.KeepAlive(c)
+	}
+	vshim.SetTokenMode(false)
 }
